@@ -38,7 +38,7 @@ def plan(tier):
 
 def required(tier):
     base = ["records_judged", "cigar_replays_ok", "reverse_step_records", "fragmented_inputs", "long_indel_reads",
-            "gotoh_optimal_confirmed", "cost_strictly_improved", "post:extract_path", "multi_core_runs"]
+            "gotoh_optimal_confirmed", "cost_strictly_improved", "post:extract_path", "multi_core_runs", "supplementary_records"]
     if tier == "thorough":
         base += ["span_60000_exact", "passthrough_records"]
     return base
@@ -83,11 +83,35 @@ def run_case(ctx, rng, index, casedir):
         hi = 600 if ctx.tier == "quick" else rng.choice([600, 2000, 6000])
         for i, w in enumerate(walks):
             recs.append(greads.make_read_record(g, rng, w, f"q{index}_{i}", tags="safe", max_span=hi))
+    # supplementary alignments: several GAF records that refer to different slices of ONE read
+    if not big_case and len(recs) >= 4:
+        for k in range(1, len(recs)):
+            if rng.random() < 0.2:
+                a, b = recs[rng.randrange(k)], recs[k]
+                while a.shared_with is not None:
+                    a = a.shared_with
+                seg = b.read[b.qs:b.qe]
+                spacer = rgfa.rand_seq(rng, rng.randint(0, 10))
+                b.qs = len(a.read) + len(spacer)
+                b.qe = b.qs + len(seg)
+                a.read = a.read + spacer + seg
+                b.read = None
+                b.name = a.name
+                b.shared_with = a
+                sit["supplementary_records"] += 1
+        for r in recs:  # rewrite name / query length / query start-end columns
+            owner = r
+            while owner.shared_with is not None:
+                owner = owner.shared_with
+            c = r.line.split("\t")
+            c[0], c[1], c[2], c[3] = owner.name, str(len(owner.read)), str(r.qs), str(r.qe)
+            r.line = "\t".join(c)
+            r.owner = owner
     lines = [r.line for r in recs]
     mode = rng.choice(["plain", "plain", "bgzf"])
     gaf = os.path.join(casedir, "in.gaf" + ("" if mode == "plain" else ".gz"))
     ggaf.write_gaf(gaf, lines, mode=mode, rng=rng, layout="tiny")
-    fa = greads.write_fasta(os.path.join(casedir, "reads.fa"), [(r.name, r.read) for r in recs], width=rng.choice([60, 80, 1000]))
+    fa = greads.write_fasta(os.path.join(casedir, "reads.fa"), [(r.name, r.read) for r in recs if r.read is not None], width=rng.choice([60, 80, 1000]))
     cores = rng.choice([1, 1, 2, 3])
     if cores > 1:
         sit["multi_core_runs"] += 1
@@ -136,7 +160,7 @@ def run_case(ctx, rng, index, casedir):
             if cg is None:
                 viol.append({"kind": "no_cigar", "msg": f"record {r.name}: no cg:Z field in the output"})
                 continue
-            query = r.read[r.qs:r.qe]
+            query = (r.owner or r).read[r.qs:r.qe]
             ok, msg, st = greads.replay(cg, query, r.target)
             if not ok:
                 viol.append({"kind": "cigar_invalid", "msg": f"record {r.name} path {a[5]}[{r.ps}:{r.pe}]: {msg}; CIGAR {cg[:60]}",
